@@ -499,7 +499,7 @@ func Gen(g *common.Gen, p Profile) {
 		}
 		dnlMs := common.Pick(r, []int{300, 1000, 1000, 6000})
 		g.Op("new %d %d %d %d %s%s", admit, serve, common.Pick(r, []int{0, 1, 2, 8, 8, 64}),
-			dnlMs, common.Pick(r, []string{"nametree", "nametree", "nametree", "hashtable"}), ls)
+			dnlMs, common.Pick(r, []string{"nametree", "nametree", "nametree", "hashtable", "hashtable:1", "hashtable:2"}), ls)
 		nf := r.Range(3, 5)
 		nonlocal := []int{}
 		for k := 0; k < nf; k++ {
